@@ -127,7 +127,9 @@ def string_array_table(ctx, report, rule, style):
         known = {'a', 'bb', 'curve25519-sha256', 'aes128-ctr'}
         sep, spaces, skip = ',', '', False
         inputs = ['a', 'unk', 'a,bb', 'a,unk,bb', 'unk,a,bb', 'a,bb,unk', 'unk1,unk2,a', 'a,unk1,unk2', 'x@example.com,curve25519-sha256,y,aes128-ctr,z',
-                  'curve25519-sha256,curve25519-sha256@libssh.org,bb']
+                  'curve25519-sha256,curve25519-sha256@libssh.org,bb',
+                  # an empty name is not a name (RFC 4251 5): refused, wherever it stands - never dropped in silence
+                  'a,bb,', ',a', 'a,,bb', 'unk,']
 
         def kw():
             return dict(item_class=EnumClass(known), fallback_class=str)
@@ -152,6 +154,9 @@ def string_array_table(ctx, report, rule, style):
             report.add(rule, f.construct + '@tabulation', 'the list scanner left the subset the tabulation understands: %s' % e)
             return
         if want is None:
+            if not skip:
+                report.add(rule, '%s@list[empty-name]' % f.construct, 'the list %r holds an empty name and is accepted as %r: the empty name is dropped in silence, so the '
+                           'list is written back (and hashed) as another text than was received' % (text, got))
             continue
         if got != want or cursor != len(text):
             report.add(rule, '%s@list[%s]' % (f.construct, shape_of(text, sep, known)),
